@@ -482,6 +482,16 @@ def oracle_run(ctx, rec, prob, label, check_convergence=True):
         return
     if f is None:
         return
+    lens = [1 if sh == 0 else max(sh, 0) for sh in prob['shapes']]
+    for nm in ('xmin', 'xmax', 'move'):
+        spec, spell = prob[nm], prob['spell'][nm]
+        exp = np.full(rec.n, float(spec)) if spell == 'scalar' else np.array(spec, dtype=float) if spell == 'variable' else \
+            np.concatenate([np.full(ln, float(v)) for ln, v in zip(lens, spec)] + [np.zeros(0)])
+        if not np.array_equal(exp, getattr(f, nm)):
+            bad('MMA.response', f'{nm} given as {spell} lands on the right variables', None, expected=exp.tolist(),
+                got=getattr(f, nm).tolist(), icls='bounds:' + spell)
+    if f.cumlens != [int(v) for v in rec.cum]:
+        bad('MMA.response', 'cumulative lengths of the variable signals', None, expected=[int(v) for v in rec.cum], got=f.cumlens)
     dx = f.xmax - f.xmin
     par = f.par
     sc = max(1.0, np.abs(f.xmin).max(), np.abs(f.xmax).max())
